@@ -18,7 +18,7 @@ PLAN = dict(
                det("dbg", H, "cs-dbg", 16, 100, 4, tso=True, time_cap=25),
                det("witness-abort-window", H, "cs-rel", 1, 30, 6, time_cap=60, args=["--witness"]),
                det("witness-dead-slot", H, "cs-rel", 1, 5, 2, time_cap=30, args=["--witness2"]),
-               tsan("C09", 4, 80)],
+               tsan("C09", 8, 240)],
         thorough=[det("rel", H, "cs-rel", 16, 6000, 5, tso=True, time_cap=300),
                   det("rel-afault", H, "cs-rel", 16, 2500, 5, tso=True, time_cap=200, args=["--afault"]),
                   det("dbg", H, "cs-dbg", 16, 2500, 5, tso=True, time_cap=200),
